@@ -98,7 +98,7 @@ def level_plumbing(ctx, prog):
             n += 1
             if c03._lvl_poly(Ph, Ph.expr(arg)) != c03.LEVEL_TIMES_100000:
                 bad.append('%s: %s(%s)' % (h.loc(c), nm, render(Ph.expr(arg))))
-    ctx.floor('C02 encoder_init/encoder_alloc_size sites', n, 4)
+    ctx.floor('C02 encoder_init/encoder_alloc_size sites', n, 2)
     ctx.ob('C02.capacity', 'every encoder is allocated and initialised for bs100k*100000 bytes (all %d sites, both '
            'collecting tasks)' % n, 'src/compress.c', not bad, '; '.join(bad))
     # combined CRC: reset per stream, combined only in do_reorder with the polynomial rotl1(a) ^ b
